@@ -116,7 +116,7 @@ Theorem C08_diagonal_junk_independent (S : Scalar) (A : crs S) invert (junk1 jun
 Proof. exact (diagonal_junk_independent A invert junk1 junk2). Qed.
 Print Assumptions C08_diagonal_junk_independent.
 
-(* pointwise_matrix (current code, after /repo 2f75975): the counting pass fits the fill pass;
+(* pointwise_matrix (current code, after /repo 0e81e11): the counting pass fits the fill pass;
    the while(!done) loop of the model never stops for lack of fuel (all inputs, also unsorted); well-formed result when block_size divides the number of
    columns (the C++ only checks the rows; without it a column index = ncols/bs is produced) *)
 Theorem C08_pointwise_passes_agree (S : Scalar) (A C : crs S) bs :
@@ -280,7 +280,7 @@ Theorem C08_gershgorin_value (lens : list nat) (A : crs S) :
 Proof. exact (Gersh.gersh_value_unscaled lt_irrefl lt_trans lt_total lens A). Qed.
 
 (* scaled variant: max_i |1/d_i| sum_j |a_ij| with d_i the LAST stored diagonal entry of row i
-   (the identity when row i stores none: [dia] is reset for every row since /repo f082a42),
+   (the identity when row i stores none: [dia] is reset for every row since /repo 519d545),
    again for every chunking *)
 Theorem C08_gershgorin_value_scaled (lens : list nat) (A : crs S) :
   nrows A <= fold_right Nat.add 0 lens ->
@@ -348,7 +348,7 @@ Theorem C08_pointwise_block_row (S : Scalar) bs mp (js : list (row S)) :
   pw_block_row bs js = pw_spec_row bs mp js.
 Proof. exact (PwSpec.pw_block_row_spec bs mp js). Qed.
 
-(* HISTORICAL, about the scan as it was BEFORE /repo commit 2f75975 (definitions *_old in
+(* HISTORICAL, about the scan as it was BEFORE /repo commit 0e81e11 (definitions *_old in
    MatOps2.v; finding F-C08-pointwise-terminator, fixed): the same specification was violated,
    in value and in pattern, on well-formed row-sorted duplicate-free input. *)
 Theorem C08_pointwise_old_refuted :
